@@ -40,6 +40,9 @@ class RaggedBase:
 
     def _change_view(self, new_view):
         ret = self._cls(self.__data, new_view)
+        # a selection gets its own buffer right away: while it merely viewed this array's buffer its
+        # content depended on whether it had been read before or after this array was written to
+        ret._flatten_myself()
         return ret
 
     def _flatten_myself(self):
